@@ -1055,8 +1055,9 @@ Proof.
   destruct (wrap_disconnect sc1 D) as [sc2 pairs] eqn:Wd.
   destruct (wrap_disconnect_spec _ _ _ _ W1 Wd) as (W2 & F2 & E2 & P2).
   destruct F2 as (G1&G2&G3&G4&G5&G6&G7&G8&G9&G10).
-  destruct (linear_order sc2 D) as [order|] eqn:Lo.
-  - assert (Po := linear_order_perm _ _ _ Lo).
+  destruct (if siblings sc k D then linear_order sc2 D else None) as [order|] eqn:Lo0.
+  - assert (Lo : linear_order sc2 D = Some order) by (destruct (siblings sc k D); [exact Lo0|discriminate]).
+    assert (Po := linear_order_perm _ _ _ Lo).
     destruct (chain_spec order sc2 W2) as (W3 & F3 & E3).
     set (sc3 := chain sc2 order) in *.
     destruct F3 as (K1&K2&K3&K4&K5&K6&K7&K8&K9&K10).
@@ -1356,10 +1357,10 @@ Qed.
 
 
 (* ---- errors of the run phase are never the two refusals ---- *)
-Definition run_err (x : res) : Prop := x <> Err ECyclic /\ x <> Err EExecutor.
+Definition run_err (x : res) : Prop := x <> Err ECyclic /\ x <> Err EExecutor /\ x <> Err ENotSiblings.
 Definition emit_re (emit : scope -> nat -> scope * list entry * res) : Prop :=
   forall sc k sc' l x, emit sc k = (sc', l, x) -> run_err x.
-Ltac re := split; discriminate.
+Ltac re := repeat split; discriminate.
 
 Lemma run_with_re emit lv : emit_re emit -> emit_re (run_with emit lv).
 Proof.
@@ -1457,7 +1458,7 @@ Definition level_exec (lv : nat) sc (k : nat) (log : list entry) (x : res) : Pro
 
 Lemma level_pull_exec fuel lv sc k up sc' up' log x : WF sc ->
   level_pull fuel lv sc k up = (sc', up', log, x) ->
-  (log = [] /\ (x = Err ECyclic \/ x = Err EExecutor)) \/ level_exec lv sc k log x.
+  (log = [] /\ (x = Err ECyclic \/ x = Err EExecutor \/ x = Err ENotSiblings)) \/ level_exec lv sc k log x.
 Proof.
   intros W. unfold level_pull.
   destruct (closure fuel (ups sc) k) as [D|] eqn:C; [|intros H; inversion H; subst; left; auto].
@@ -1467,7 +1468,9 @@ Proof.
   destruct (wrap_disconnect sc1 D) as [sc2 pairs] eqn:Wd.
   destruct (wrap_disconnect_spec _ _ _ _ W1 Wd) as (W2 & F2 & E2 & P2).
   destruct F2 as (G1&G2&G3&G4&G5&G6&G7&G8&G9&G10).
-  destruct (linear_order sc2 D) as [order|] eqn:Lo; [|intros H; inversion H; subst; left; auto].
+  destruct (if siblings sc k D then linear_order sc2 D else None) as [order|] eqn:Lo0;
+    [|intros H; inversion H; subst; left; split; auto; destruct (siblings sc k D); auto].
+  assert (Lo : linear_order sc2 D = Some order) by (destruct (siblings sc k D); [exact Lo0|discriminate]).
   destruct (linear_order_enum _ _ _ _ _ _ C G2 Lo) as [T [l Hol]].
   assert (Po := linear_order_perm _ _ _ Lo).
   destruct (chain_spec order sc2 W2) as (W3 & F3 & E3).
@@ -1486,7 +1489,7 @@ Proof.
       subst a. apply Hkl. left; auto. }
     subst l. refine (conj T (conj Hol (conj (fun _ => eq_refl) (conj _ _)))).
     + intros _. exists [], []. split; reflexivity.
-    + split; discriminate.
+    + repeat split; discriminate.
   - apply Nat.eqb_neq in Hf.
     destruct l as [|first l']; [rewrite Hol in Hf; simpl in Hf; congruence|].
     assert (Hfirst : hd k order = first) by (rewrite Hol; reflexivity). rewrite Hfirst in Ru.
@@ -1566,7 +1569,7 @@ Proof.
                  | _ => l0 = [] end).
     { destruct (par sc); try (inversion Q; subst; reflexivity).
       destruct parents; [|inversion Q; subst; reflexivity]. eapply IH; eauto. }
-    destruct (level_pull_exec _ _ _ _ _ _ _ _ _ Wsc Lp) as [[_ [?|?]]|Hx]; try discriminate.
+    destruct (level_pull_exec _ _ _ _ _ _ _ _ _ Wsc Lp) as [[_ [?|[?|?]]]|Hx]; try discriminate.
     destruct Hx as (order & l & T & Ho & Hlog & _ & _).
     rewrite (Hlog eq_refl). exists l0, order, l. auto.
 Qed.
@@ -1633,11 +1636,11 @@ Qed.
 (* regression instance of the repaired defect S12: a macro m (node 0 of the outer scope) holding a -> b;
    outside, m >> d.  Pulling b runs a and b only *)
 Definition w_inner : scope :=
-  mkScope nolbl (fun i => match i with 1 => [0] | _ => [] end) nofn nofn nofn nofn nob nob nob PMacro [] true false.
+  mkScope nolbl (fun i => match i with 1 => [0] | _ => [] end) nofn nofn nofn nofn nob nob nob PMacro [] true false (fun _ => 0).
 Definition w_outer : scope :=
   mkScope nolbl (fun i => match i with 1 => [0] | _ => [] end)
           (fun i => match i with 1 => [0] | _ => [] end) nofn
-          (fun i => match i with 0 => [(1, IRun)] | _ => [] end) nofn nob nob nob PNone [] true false.
+          (fun i => match i with 0 => [(1, IRun)] | _ => [] end) nofn nob nob nob PNone [] true false (fun _ => 0).
 Definition w_stack : stack := [(w_inner, 1); (w_outer, 0)].
 
 Lemma w_outer_WF : WF w_outer.
@@ -1659,7 +1662,7 @@ Definition w_handler : scope :=
   mkScope nolbl (fun i => match i with 1 => [0] | _ => [] end)
           (fun i => match i with 2 => [1] | _ => [] end) nofn
           (fun e => match e with 1 => [(2, IRun)] | _ => [] end) nofn nob
-          (fun i => match i with 0 => true | _ => false end) nob PNone [] true false.
+          (fun i => match i with 0 => true | _ => false end) nob PNone [] true false (fun _ => 0).
 Lemma w_handler_WF : WF w_handler.
 Proof.
   constructor.
@@ -1673,7 +1676,7 @@ Qed.
 Definition w_order : scope :=
   mkScope nolbl (fun i => match i with 3 => [2] | _ => [] end)
           (fun i => match i with 2 => [2; 0] | _ => [] end) nofn
-          (fun e => match e with 0 => [(2, IRun)] | 2 => [(2, IRun)] | _ => [] end) nofn nob nob nob PNone [] true false.
+          (fun e => match e with 0 => [(2, IRun)] | 2 => [(2, IRun)] | _ => [] end) nofn nob nob nob PNone [] true false (fun _ => 0).
 Lemma w_order_WF : WF w_order.
 Proof.
   constructor.
@@ -1687,9 +1690,9 @@ Qed.
 Definition ex_inner : scope :=
   mkScope nolbl (fun i => match i with 1 => [0] | _ => [] end)
           (fun i => match i with 2 => [0] | _ => [] end) nofn
-          (fun i => match i with 0 => [(2, IRun)] | _ => [] end) nofn nob nob nob PMacro [2] true false.
+          (fun i => match i with 0 => [(2, IRun)] | _ => [] end) nofn nob nob nob PMacro [2] true false (fun _ => 0).
 Definition ex_outer : scope :=
-  mkScope nolbl (fun i => match i with 1 => [0] | _ => [] end) nofn nofn nofn nofn nob nob nob PNone [] true false.
+  mkScope nolbl (fun i => match i with 1 => [0] | _ => [] end) nofn nofn nofn nofn nob nob nob PNone [] true false (fun _ => 0).
 Lemma ex_stack_wf : stack_wf [(ex_inner, 1); (ex_outer, 1)].
 Proof.
   constructor; [|constructor; [simpl; apply WF_empty; reflexivity|constructor]]. simpl. constructor.
@@ -1697,4 +1700,17 @@ Proof.
       repeat (destruct H as [H|H]; try discriminate; try (inversion H; fail)); auto; try contradiction.
   - intros r s. destruct s; destruct r as [|[|[|r]]]; simpl; repeat constructor; simpl; tauto.
   - intros e. destruct e as [|e]; simpl; repeat constructor; simpl; tauto.
+Qed.
+
+(* a data connection that crosses composites: the upstream closure is not a set of siblings *)
+Lemma level_pull_refused_siblings fuel lv sc k up D v sc' up' log x :
+  closure fuel (ups sc) k = Some D -> existsb (exe sc) D = false -> In v D -> own sc v <> own sc k ->
+  level_pull fuel lv sc k up = (sc', up', log, x) -> x = Err ENotSiblings /\ log = [] /\ up' = up.
+Proof.
+  intros C Hx Hv Ho. unfold level_pull. rewrite C, Hx.
+  destruct (wrap_disconnect (relabel sc D) D) as [sc2 pairs].
+  assert (Hs : siblings sc k D = false).
+  { unfold siblings. destruct (forallb _ D) eqn:Q; auto. exfalso.
+    rewrite forallb_forall in Q. specialize (Q v Hv). apply Nat.eqb_eq in Q. contradiction. }
+  rewrite Hs. intros H; inversion H; subst. auto.
 Qed.
